@@ -180,7 +180,21 @@ func (l *L2) sendLine(s string) bool {
 // (handing over the remaining groups of the same clean-up).  Before the output is looked at - and before the shared
 // context is cancelled, which would let the parser leave through ctx.Done instead - give it the empty line: it takes
 // it only when it is back in its loop.  Bounded: a parser that is stuck shows in the observation, not here.
-var quiesceTimeouts atomic.Int64
+var quiesceTimeouts, loginTimeouts, takeTimeouts atomic.Int64
+
+func takePatience() time.Duration {
+	if takeTimeouts.Load() > 4 {
+		return 200 * time.Millisecond
+	}
+	return 5 * time.Second
+}
+
+func loginPatience() time.Duration {
+	if loginTimeouts.Load() > 4 {
+		return 50 * time.Millisecond
+	}
+	return 2 * time.Second
+}
 
 func (l *L2) returned(err error) {
 	l.RetErr, l.Retd = err, true
@@ -315,16 +329,19 @@ func (l *L2) Apply(c Call) (ok bool, err error) {
 		case err := <-l.done:
 			l.returned(err)
 			return false, nil
-		case <-time.After(5 * time.Second):
-			return false, fmt.Errorf("Read did not take the login within 5 s")
+		case <-time.After(takePatience()):
+			takeTimeouts.Add(1)
+			return false, fmt.Errorf("hang: Read did not take the login (it is stuck in an earlier call)")
 		}
 		select {
 		case <-l.loginOK:
 		case err := <-l.done:
 			l.returned(err)
 			return false, nil
-		case <-time.After(5 * time.Second):
-			return false, fmt.Errorf("RemoteLogin did not finish within 5 s")
+		case <-time.After(loginPatience()):
+			// Read took the login but the correlator was never seen finishing RemoteLogin: what that means shows in
+			// the events that follow (nothing is judged here)
+			loginTimeouts.Add(1)
 		}
 		if c.K == "badlogin" {
 			l.expectReturn = true
